@@ -38,7 +38,7 @@ for name in sorted(os.listdir(os.path.join(V, "seeded"))):
     what = (meta.get("summary") or meta.get("what") or meta.get("change") or "")
     what = re.sub(r"\s+", " ", what)[:150]
     ok = ver.get("demo_fails_with_change") and ver.get("demo_passes_without_change") and not ver.get("suite_new_failures_with_change")
-    rows.append("| `%s` | %s | %s | %s | %s | %s |" % (name, tgt, "yes" if ok else "see verified.json", " + ".join(how) or "-", detail.replace("|", "/"), len(others)))
+    rows.append("| `%s` | %s | %s | %s | %s | %s |" % (name, tgt, "yes" if ok else "see verified.json", " + ".join(how) or "-", re.sub(r"\s+", " ", detail).replace("|", "/"), len(others)))
 table = "| seeded change | target | confirmed | caught by (target property) | detail | other properties flagged |\n|---|---|---|---|---|---|\n" + "\n".join(rows)
 p = os.path.join(V, "DESIGN.md")
 s = open(p).read()
